@@ -996,14 +996,19 @@ def pad(tensor, padding, value=0.0):
                 tn.eye(pad[1], device=cores[k].device, dtype=cores[k].dtype)
             value = 1
     else:
-        rprod = np.prod(tensor.R)
-        value = value/rprod
-
         cores = [c.clone() for c in tensor.cores]
         for pad, k in zip(reversed(padding), reversed(range(len(tensor.N)))):
             cores[k] = tnf.pad(
-                cores[k], (0, 0, pad[0], pad[1], 0, 0), value=value)
-            value = 1 if value != 0 else 0
+                cores[k], (0, 0, pad[0], pad[1], 0, 0), value=0)
+
+        if value != 0:
+            # constant fill outside the original block: value * (ones - indicator of the block), a rank-2 correction
+            block = [tn.ones((1, n, 1), dtype=cores[0].dtype, device=cores[0].device) for n in tensor.N]
+            for pad, k in zip(reversed(padding), reversed(range(len(tensor.N)))):
+                block[k] = tnf.pad(block[k], (0, 0, pad[0], pad[1], 0, 0), value=0)
+            outside = torchtt._tt_base.TT([tn.ones((1, c.shape[1], 1), dtype=c.dtype, device=c.device)
+                                          for c in cores]) - torchtt._tt_base.TT(block)
+            return torchtt._tt_base.TT(cores) + value * outside
 
     return torchtt._tt_base.TT(cores)
 
